@@ -1299,6 +1299,13 @@ def r19_sizeless_formats_expand_as_argb(ck, P, rid='C10-R19'):
     for x in f.insts():
         if x.op == 'phi' and any(a[0] == 'c' for a in x.a) and any(a[0] == 'a' and f.params[a[1]][1] == 'i32' for a in x.a):
             phi = x
+    if phi is None and argb is not None:
+        # no merge at all: are the channel sizes taken from the caller's code as it came in?
+        raw = [x for x in f.insts() if x.op in ('lshr', 'and') and x.a[0][0] == 'a' and f.params[x.a[0][1]][1] == 'i32']
+        if raw:
+            ck.saw(f)
+            ck.violation(R, f.name, 'channel sizes read from the unsubstituted format', 'pixman_expand_to_float extracts the channel sizes from the format code as the caller passed it (%s); the substitution of a8r8g8b8 for formats without channel sizes does not reach that use (it comes later, or not at all): every pixel of an indexed, gray or YUV image widens to opaque black in the float pipeline' % raw[0].loc(), raw[0].loc())
+            return
     if phi is None or argb is None:
         raise AnalysisBroken('%s: no merge of the format parameter with a constant format in pixman_expand_to_float' % rid)
     ck.saw(f)
@@ -1322,3 +1329,49 @@ def r19_sizeless_formats_expand_as_argb(ck, P, rid='C10-R19'):
             ck.ok(R, where, 'expanded as a8r8g8b8')
     if n == 0:
         raise AnalysisBroken('%s: the format enumeration has no code without channel sizes' % rid)
+
+
+def r20_pixel_reader_stride_matches_row_format(ck, P, rid='C04-R22'):
+    """T-TAB: each row of accessors[] names a single-pixel reader next to the format code.  The reader addresses pixel `offset` of a row at
+    offset * (bytes per pixel); the bytes per pixel it uses are those of the row's format (the bpp field of the code)."""
+    R = ck.rule(rid, 'for every row of accessors[] whose wide single-pixel reader addresses the row itself (it does not go through another reader), the product offset * k that forms the element index, with the size of the element type, amounts to the bytes per pixel of the row\'s format code: the rgb_float row (96 bits per pixel) served by the rgba_float reader (128) takes pixel n from 16 n instead of 12 n and reads up to a third of a row beyond the row - beyond the image for the last row', floor=2)
+    n = 0
+    for un in ('pixman-access.c', 'pixman-access-accessors.c'):
+        if un not in P.units:
+            continue
+        u, g, t = accessor_table(P, un)
+        for e in t:
+            for slot in ('fetch_pixel_float', 'fetch_pixel_32'):
+                fn = tables.fname(e.get(slot))
+                f = u.functions.get(fn) if fn else None
+                if f is None or any(c.callee is None for c in f.calls()):
+                    continue
+                offs = [i for i, (nm, ty) in enumerate(f.params) if nm == 'offset' and ty == 'i32']
+                if not offs:
+                    continue
+                k = None; esz = None
+                for x in f.insts():
+                    if x.op in ('mul', 'shl') and any(list(f.strip_casts(a)) == ['a', offs[0]] for a in x.a) and any(a[0] == 'c' for a in x.a):
+                        c_ = [int(a[1]) for a in x.a if a[0] == 'c'][0]
+                        kk = c_ if x.op == 'mul' else (1 << c_)
+                        for q in f.users(x):
+                            qq = q
+                            if qq.op in ('sext', 'zext'):
+                                us = f.users(qq)
+                                qq = us[0] if us else qq
+                            if qq.op == 'getelementptr':
+                                ety = qq.ty[:-1] if qq.ty.endswith('*') else qq.ty
+                                es = {'float': 4, 'i32': 4, 'i16': 2, 'i8': 1, 'i64': 8, 'double': 8}.get(ety)
+                                if es:
+                                    k, esz = kk, es
+                if k is None:
+                    continue
+                bpp = tables.fmt_info(e['format'])['bpp']
+                n += 1; ck.saw(f)
+                where = '%s: %s of format %#x (%d bpp)' % (un, fn, e['format'], bpp)
+                if k * esz * 8 == bpp:
+                    ck.ok(R, where)
+                else:
+                    ck.violation(R, fn, 'row of format %#x (%s)' % (e['format'], slot), 'the accessors[] row of format %#x (%d bits per pixel) names %s as its %s reader, which addresses pixel n at element %d n of a %d-byte element type (%d bits per pixel): pixels are taken from the wrong place, and for the last quarter of a row from beyond it' % (e['format'], bpp, fn, slot, k, esz, k * esz * 8), '%s table accessors' % un)
+    if n == 0:
+        raise AnalysisBroken('%s: no single-pixel reader with an offset * k element index found in accessors[]' % rid)
